@@ -10,8 +10,9 @@
     longer than `MAX` drop the oldest `len − (MAX − CLEAR)` keys from the map and keep
     `recent[-(MAX − CLEAR):]` — with Python's slice rules, so that `recent[-0:]` is the whole list.
   * The module constants are read at call time, so `MAX`/`CLEAR` are arguments.
-  * The lock: `Model.Cache.Lock` below renders both methods as small-step programs over an explicit
-    `held : Bool`.
+  * The lock: `Pc`/`bodyStep`/`lstep` below render both methods as small-step programs over an explicit
+    `held : Bool`, one step per statement the code performs between `acquire` and `release` (the
+    critical sections are NOT atomic at that level); `LThread`/`ltStep` run whole threads on it.
 
   Keys are `sha1(expression text)` in the code; here a function `key : E → K` (the theorems ask for
   injectivity, i.e. sha1 is assumed collision-free on the expressions in play).
@@ -244,30 +245,278 @@ end Threads
 
 /-! ### The critical sections as small-step programs over an explicit lock
 
-  One `LStep` is one statement group of `getCachedExpression` / `setCachedExpression`; the lock is
-  `held : Bool`.  `acquire` is enabled only when the lock is free (a blocked thread cannot move);
-  every other statement is always enabled.  The exception path of `setCachedExpression`
-  (`except Exception: release; raise`) is the `.setFail` program point: the body may fail at the
-  point where it would touch the data (`fail = true` chooses that path). -/
+  One `lstep` is ONE statement of `getCachedExpression` / `setCachedExpression` as the code performs
+  it between `acquire` and `release`: the dict lookup, one iteration of the
+  `while True: try: remove(key) except ValueError: break` loop, the `append`, the dict store, the length
+  test (which also computes `keysToRemove`, a local), one iteration of the `for keyToRemove …: del`
+  loop, the slice assignment.  Every body step reads and writes the *shared* cache, so another thread
+  scheduled in between sees (and would disturb) the half-done state: the sections are not atomic here.
+  The lock is `held : Bool`: `acquire` is enabled only while the lock is free, and a thread takes a
+  body step or a release only while the lock is held (the check is vacuous on reachable
+  configurations — C15 `holder_never_blocked`).  `lstepG false` is the same machine without these
+  checks, i.e. without the lock (the counter-model of C15: it breaks the cache invariant).
+
+  The exception path of `setCachedExpression` (`except Exception: release; raise`) is the `.setFail`
+  program point: the body may fail where it first touches the data (`fail = true` chooses that path). -/
 
 inductive Pc (K V : Type) where
   | getAcquire (k : K)                 -- before `self.cacheLock.acquire()` in getCachedExpression
-  | getBody (k : K)                    -- holding the lock, before the lookup
-  | getRelease (r : Option V)          -- holding the lock, about to release (either return path)
+  | getLookup (k : K)                  -- holding: `obj = self.cachedCompiledExpressions.get(key, None)`
+  | getRemove (k : K) (v : V)          -- holding, hit: one `try: recent.remove(key) except ValueError: break`
+  | getAppend (k : K) (v : V)          -- holding: `recent.append(key)`
+  | getRelease (r : Option V)          -- holding, about to release (either return path)
   | setAcquire (k : K) (v : V) (fail : Bool)
-  | setBody (k : K) (v : V) (fail : Bool)
+  | setRemove (k : K) (v : V) (fail : Bool)   -- holding: one iteration of the remove loop (first body statement)
+  | setStore (k : K) (v : V)           -- holding: `self.cachedCompiledExpressions[key] = obj`
+  | setAppend (k : K)                  -- holding: `recent.append(key)`
+  | setCheck                           -- holding: `if len(recent) > MAX:` and `keysToRemove = recent[: len − remain]`
+  | setDel (ks : List K)               -- holding: `for keyToRemove in keysToRemove: try: del map[…] except: pass`
+  | setSlice                           -- holding: `recent = recent[-1 * remain :]`
   | setRelease                         -- normal exit: `self.cacheLock.release()`
   | setFail                            -- `except Exception as exc: self.cacheLock.release(); raise exc`
   | done (r : Option V) (raised : Bool)
-  deriving Repr
+  deriving Repr, DecidableEq
 
 structure Shared (K V : Type) where
   held : Bool
   cache : State K V
 
-/-- One step of one thread at program point `pc`; `none` = the thread is blocked. -/
-def lstep {K V : Type} [DecidableEq K] (MAX CLEAR : Nat) (sh : Shared K V) :
-    Pc K V → Option (Shared K V × Pc K V)
+/-- Does the thread at `pc` hold the lock? -/
+def Pc.holds {K V : Type} : Pc K V → Bool
+  | .getAcquire _ | .setAcquire .. | .done .. => false
+  | _ => true
+
+def Pc.isDone {K V : Type} : Pc K V → Bool
+  | .done .. => true
+  | _ => false
+
+/-- The three `self.cacheLock.release()` statements. -/
+def Pc.isRelease {K V : Type} : Pc K V → Bool
+  | .getRelease _ | .setRelease | .setFail => true
+  | _ => false
+
+/-- Where `acquire` continues. -/
+def Pc.afterAcquire {K V : Type} : Pc K V → Pc K V
+  | .getAcquire k => .getLookup k
+  | .setAcquire k v f => .setRemove k v f
+  | pc => pc
+
+/-- Where `release` continues: the method returns (`raised` = re-raises). -/
+def Pc.afterRelease {K V : Type} : Pc K V → Pc K V
+  | .getRelease r => .done r false
+  | .setRelease => .done none false
+  | .setFail => .done none true
+  | pc => pc
+
+/-- One statement inside a critical section, executed on the shared cache as it is *now*. -/
+def bodyStep {K V : Type} [DecidableEq K] (MAX CLEAR : Nat) (c : State K V) : Pc K V → State K V × Pc K V
+  | .getLookup k =>
+    match dictGet c.map k with
+    | none => (c, .getRelease none)
+    | some v => (c, .getRemove k v)
+  | .getRemove k v =>
+    if k ∈ c.recent then ({ c with recent := c.recent.erase k }, .getRemove k v) else (c, .getAppend k v)
+  | .getAppend k v => ({ c with recent := c.recent ++ [k] }, .getRelease (some v))
+  | .setRemove k v f =>
+    if f then (c, .setFail)
+    else if k ∈ c.recent then ({ c with recent := c.recent.erase k }, .setRemove k v false) else (c, .setStore k v)
+  | .setStore k v => ({ c with map := dictSet c.map k v }, .setAppend k)
+  | .setAppend k => ({ c with recent := c.recent ++ [k] }, .setCheck)
+  | .setCheck =>
+    if c.recent.length > MAX then
+      (c, .setDel (sliceTo c.recent ((c.recent.length : Int) - ((MAX : Int) - (CLEAR : Int)))))
+    else (c, .setRelease)
+  | .setDel [] => (c, .setSlice)
+  | .setDel (x :: ks) => ({ c with map := dictDel c.map x }, .setDel ks)
+  | .setSlice => ({ c with recent := sliceFrom c.recent (-1 * ((MAX : Int) - (CLEAR : Int))) }, .setRelease)
+  | pc => (c, pc)
+
+/-- One step of one thread at program point `pc`; `none` = the thread cannot move (blocked on
+    `acquire`, or — never, on reachable configurations — inside a section without the lock).
+    `useLock = false` drops every test of `held`: the machine without the lock. -/
+def lstepG {K V : Type} [DecidableEq K] (useLock : Bool) (MAX CLEAR : Nat) (sh : Shared K V) (pc : Pc K V) :
+    Option (Shared K V × Pc K V) :=
+  if pc.isDone then some (sh, pc)
+  else if pc.holds then
+    if useLock && !sh.held then none
+    else if pc.isRelease then some ({ sh with held := false }, pc.afterRelease)
+    else some ({ sh with cache := (bodyStep MAX CLEAR sh.cache pc).1 }, (bodyStep MAX CLEAR sh.cache pc).2)
+  else
+    if useLock && sh.held then none
+    else some ({ sh with held := true }, pc.afterAcquire)
+
+/-- The machine of the code: with the lock. -/
+def lstep {K V : Type} [DecidableEq K] (MAX CLEAR : Nat) (sh : Shared K V) (pc : Pc K V) :
+    Option (Shared K V × Pc K V) := lstepG true MAX CLEAR sh pc
+
+/-- `n` consecutive steps of the same thread (nobody else scheduled in between). -/
+def lsteps {K V : Type} [DecidableEq K] (MAX CLEAR : Nat) : Nat → Shared K V → Pc K V → Option (Shared K V × Pc K V)
+  | 0, sh, pc => some (sh, pc)
+  | n + 1, sh, pc =>
+    match lstep MAX CLEAR sh pc with
+    | none => none
+    | some (sh', pc') => lsteps MAX CLEAR n sh' pc'
+
+/-- A lock-level configuration of cache *operations*: the shared cell and one program point per thread
+    (each thread performs one `getCachedExpression` / `setCachedExpression`, possibly failing). -/
+structure LSys (K V : Type) where
+  sh : Shared K V
+  pcs : List (Pc K V)
+
+/-- Thread `i` moves; `none` = it cannot (blocked, or does not exist). -/
+def lsysStepG {K V : Type} [DecidableEq K] (useLock : Bool) (MAX CLEAR : Nat) (s : LSys K V) (i : Nat) :
+    Option (LSys K V) :=
+  match s.pcs[i]? with
+  | none => none
+  | some pc =>
+    match lstepG useLock MAX CLEAR s.sh pc with
+    | none => none
+    | some (sh', pc') => some ⟨sh', s.pcs.set i pc'⟩
+
+def lsysStep {K V : Type} [DecidableEq K] (MAX CLEAR : Nat) (s : LSys K V) (i : Nat) : Option (LSys K V) :=
+  lsysStepG true MAX CLEAR s i
+
+/-- Run a schedule; a pick of a thread that cannot move is a wasted quantum. -/
+def lsysRunG {K V : Type} [DecidableEq K] (useLock : Bool) (MAX CLEAR : Nat) (s : LSys K V) (sched : List Nat) :
+    LSys K V :=
+  sched.foldl (fun s i => (lsysStepG useLock MAX CLEAR s i).getD s) s
+
+def lsysRun {K V : Type} [DecidableEq K] (MAX CLEAR : Nat) (s : LSys K V) (sched : List Nat) : LSys K V :=
+  lsysRunG true MAX CLEAR s sched
+
+/-! ### Whole threads at the lock level
+
+  A lock-level thread is a `Thread` of the quantum machine plus the program point of the cache operation
+  it is in (`none` = between operations, at the top of its event loop).  `XPathExpression(text)`:
+  compute the key (thread-local), run `getCachedExpression` as a section; after it has *returned* —
+  lock released — continue thread-locally (`Thread.cont`): on a hit copy the operations, on a miss
+  compile (outside the lock) and remember the store still to do; then `setCachedExpression` as a second
+  section.  `evaluate` on a held object is thread-local. -/
+
+section LThreads
+variable {E K V T R : Type} [DecidableEq K]
+
+/-- `slots[i].evaluate(tree)`: thread-local. -/
+def Thread.evalHeld (eval : V → T → R) (th : Thread E V T R) (i : Nat) (t : T) (rest : List (Event E T)) :
+    Thread E V T R :=
+  { th with todo := rest, obs := th.obs ++ [match th.slots[i]? with
+                                              | some v => .result (eval v t)
+                                              | none => .noSlot] }
+
+/-- The thread-local continuation after the critical section of the head event has returned `r`
+    (`r` is meaningful for `getCachedExpression` only). -/
+def Thread.cont (compile : E → Option V) (eval : V → T → R) (th : Thread E V T R) (r : Option V) :
+    Thread E V T R :=
+  match th.todo with
+  | [] => th
+  | ev :: rest =>
+    match ev.expr? with
+    | none => th
+    | some e =>
+      match th.pending with
+      | some v => th.finish eval ev rest v            -- `setCachedExpression` returned: the constructor is done
+      | none =>
+        match r with
+        | some v => th.finish eval ev rest v          -- hit: `_copyOperationsFromXPathExpressionObj`
+        | none =>
+          match compile e with                        -- miss: `parseXPathStrIntoOperations`, outside the lock
+          | none => { th with todo := rest, obs := th.obs ++ [.compileError] }
+          | some v => { th with pending := some v }
+
+structure LThread (E K V T R : Type) where
+  th : Thread E V T R
+  pc : Option (Pc K V)
+
+structure LTSys (E K V T R : Type) where
+  sh : Shared K V
+  threads : List (LThread E K V T R)
+
+def LTSys.init (evss : List (List (Event E T))) : LTSys E K V T R :=
+  ⟨⟨false, State.empty⟩, evss.map (fun evs => ⟨Thread.init evs, none⟩)⟩
+
+/-- Thread `i` performs its next statement; `none` = it cannot move (blocked on `acquire`, or no such
+    thread).  A finished thread idles. -/
+def ltStep (compile : E → Option V) (key : E → K) (eval : V → T → R) (MAX CLEAR : Nat)
+    (s : LTSys E K V T R) (i : Nat) : Option (LTSys E K V T R) :=
+  match s.threads[i]? with
+  | none => none
+  | some lt =>
+    match lt.pc with
+    | none =>
+      match lt.th.todo with
+      | [] => some s
+      | ev :: rest =>
+        match ev with
+        | .evalSlot j t => some { s with threads := s.threads.set i ⟨lt.th.evalHeld eval j t rest, none⟩ }
+        | .new e | .query e _ =>
+          match lt.th.pending with
+          | none => some { s with threads := s.threads.set i ⟨lt.th, some (.getAcquire (key e))⟩ }
+          | some v => some { s with threads := s.threads.set i ⟨lt.th, some (.setAcquire (key e) v false)⟩ }
+    | some (.done r _) => some { s with threads := s.threads.set i ⟨lt.th.cont compile eval r, none⟩ }
+    | some pc =>
+      match lstep MAX CLEAR s.sh pc with
+      | none => none
+      | some (sh', pc') => some ⟨sh', s.threads.set i ⟨lt.th, some pc'⟩⟩
+
+/-- Run a schedule; a pick of a thread that cannot move is a wasted quantum. -/
+def ltRun (compile : E → Option V) (key : E → K) (eval : V → T → R) (MAX CLEAR : Nat) :
+    LTSys E K V T R → List Nat → LTSys E K V T R
+  | s, [] => s
+  | s, i :: rest => ltRun compile key eval MAX CLEAR ((ltStep compile key eval MAX CLEAR s i).getD s) rest
+
+/-- Is the next statement of this thread the point where its current quantum of the quantum machine
+    takes effect?  The `release` of a section, or a thread-local evaluation. -/
+def LThread.commits (lt : LThread E K V T R) : Bool :=
+  match lt.pc with
+  | none =>
+    match lt.th.todo with
+    | .evalSlot .. :: _ => true
+    | _ => false
+  | some pc => pc.isRelease
+
+/-- The lock-level schedule projected at the release points: the schedule of the quantum machine. -/
+def ltProject (compile : E → Option V) (key : E → K) (eval : V → T → R) (MAX CLEAR : Nat) :
+    LTSys E K V T R → List Nat → List Nat
+  | _, [] => []
+  | s, i :: rest =>
+    match ltStep compile key eval MAX CLEAR s i with
+    | none => ltProject compile key eval MAX CLEAR s rest
+    | some s' =>
+      (if (s.threads[i]?).any LThread.commits then [i] else []) ++ ltProject compile key eval MAX CLEAR s' rest
+
+/-- What the quantum machine sees of a lock-level thread: a thread whose section has returned has
+    its quantum behind it. -/
+def LThread.abs (compile : E → Option V) (eval : V → T → R) (lt : LThread E K V T R) : Thread E V T R :=
+  match lt.pc with
+  | some (.done r _) => lt.th.cont compile eval r
+  | _ => lt.th
+
+def LThread.finished (lt : LThread E K V T R) : Bool := lt.pc.isNone && lt.th.todo.isEmpty
+
+/-- The operation-level view of a thread-level configuration (a thread between operations counts as returned). -/
+def LTSys.toLSys (s : LTSys E K V T R) : LSys K V :=
+  ⟨s.sh, s.threads.map (fun lt => lt.pc.getD (.done none false))⟩
+
+end LThreads
+
+/-! ### The former one-step machine (kept: `AHP.C15.Atomic` still states its theorems)
+
+  Here the whole body of a section is a single step, whatever `held` is — so the lock protects nothing
+  in *this* machine (review B, H4).  Superseded by `lstep` above. -/
+
+inductive PcA (K V : Type) where
+  | getAcquire (k : K)
+  | getBody (k : K)
+  | getRelease (r : Option V)
+  | setAcquire (k : K) (v : V) (fail : Bool)
+  | setBody (k : K) (v : V) (fail : Bool)
+  | setRelease
+  | setFail
+  | done (r : Option V) (raised : Bool)
+  deriving Repr
+
+def lstepA {K V : Type} [DecidableEq K] (MAX CLEAR : Nat) (sh : Shared K V) :
+    PcA K V → Option (Shared K V × PcA K V)
   | .getAcquire k => if sh.held then none else some ({ sh with held := true }, .getBody k)
   | .getBody k =>
     let (c, r) := get sh.cache k
@@ -281,12 +530,11 @@ def lstep {K V : Type} [DecidableEq K] (MAX CLEAR : Nat) (sh : Shared K V) :
   | .setFail => some ({ sh with held := false }, .done none true)
   | .done r x => some (sh, .done r x)
 
-/-- Does the thread at `pc` hold the lock? -/
-def Pc.holds {K V : Type} : Pc K V → Bool
+def PcA.holds {K V : Type} : PcA K V → Bool
   | .getBody _ | .getRelease _ | .setBody .. | .setRelease | .setFail => true
   | _ => false
 
-def Pc.isDone {K V : Type} : Pc K V → Bool
+def PcA.isDone {K V : Type} : PcA K V → Bool
   | .done .. => true
   | _ => false
 
